@@ -1,300 +1,191 @@
-(* C14 (b): statements, blocks and the file level. *)
+(* C14 (b): statements, blocks and the file level:  read_native (emit t) = Some (nconvert t)  for every tree. *)
 From Coq Require Import ZArith List String Bool Lia Arith.
+From Gen Require Import Magic.
 From C14 Require Import Model Proofs.
 Import ListNotations.
 Open Scope Z_scope.
 
-Fixpoint size_params (ps : params) : nat :=
-  match ps with
-  | PNil => 0
-  | PCons _ _ _ _ d r => (match d with Some e => size_e e | None => 0 end) + size_params r
-  end%nat.
-
 Fixpoint size_ckws (k : ckws) : nat := match k with KNil => 0 | KCons _ e r => size_e e + size_ckws r end%nat.
+Fixpoint size_witems (w : witems) : nat := match w with WNil => 0 | WCons c t r => size_e c + size_oe t + size_witems r end%nat.
 
 Fixpoint size_s (s : stmt) : nat :=
   match s with
   | SClass _ _ bases kws decos b0 bs => 1 + size_es bases + size_ckws kws + size_es decos + size_s b0 + size_ss bs
-  | SDef _ _ ps b0 bs => 1 + size_params ps + size_s b0 + size_ss bs
+  | SDef _ _ ps decos _ b0 bs => 2 + size_params ps + size_es decos + size_s b0 + size_ss bs
   | SExpr _ e => 1 + size_e e
   | SAssign _ t v => 1 + size_es t + size_e v
-  | SReturn _ v => 1 + match v with Some e => size_e e | None => 0 end
-  | SPass _ => 1
+  | SAnnAssign _ t a v => 2 + size_e t + size_ty a + size_oe v
+  | SAugAssign _ _ t v => 1 + size_e t + size_e v
+  | SReturn _ v => 1 + size_oe v
+  | SPass _ | SBreak _ | SContinue _ | SGlobal _ _ | SNonlocal _ _ | SImport _ _ | SImportFrom _ _ _ _ | SImportAll _ _ _ => 1
+  | SDel _ t0 ts => 2 + size_e t0 + size_es ts
+  | SAssert _ t m => 1 + size_e t + size_oe m
+  | SRaise _ e c => 1 + size_oe e + size_oe c
   | SWhile _ t b0 bs o => 1 + size_e t + size_s b0 + size_ss bs + size_ss o
   | SFor _ t i b0 bs o => 1 + size_e t + size_e i + size_s b0 + size_ss bs + size_ss o
   | SIf _ t b0 bs el o => 1 + size_e t + size_s b0 + size_ss bs + size_el el + size_ss o
+  | SWith _ items b0 bs => 1 + size_witems items + size_s b0 + size_ss bs
+  | STry _ b0 bs hs o f => 1 + size_s b0 + size_ss bs + size_hs hs + size_ss o + size_ss f
   end%nat
 with size_ss (ss : stmts) : nat := match ss with SNil => 0 | SCons s ss' => size_s s + size_ss ss' end%nat
 with size_el (el : elifs) : nat :=
-  match el with LNil => 0 | LCons _ t b0 bs el' => 1 + size_e t + size_s b0 + size_ss bs + size_el el' end%nat.
+  match el with LNil => 0 | LCons _ t b0 bs el' => 1 + size_e t + size_s b0 + size_ss bs + size_el el' end%nat
+with size_hs (hs : handlers) : nat :=
+  match hs with HNil => 0 | HCons _ ty _ b0 bs r => 1 + size_oe ty + size_s b0 + size_ss bs + size_hs r end%nat.
 
 Scheme stmt_mut := Induction for stmt Sort Prop
   with stmts_mut := Induction for stmts Sort Prop
-  with elifs_mut := Induction for elifs Sort Prop.
-Combined Scheme stmt_all_mut from stmt_mut, stmts_mut, elifs_mut.
+  with elifs_mut := Induction for elifs Sort Prop
+  with handlers_mut := Induction for handlers Sort Prop.
+Combined Scheme stmt_all_mut from stmt_mut, stmts_mut, elifs_mut, handlers_mut.
 
-Lemma mspos_conv : forall s, mspos (conv_s s) = spos s.
-Proof. destruct s; reflexivity. Qed.
-Lemma last_mspos_conv : forall ss s0, last_mspos (conv_s s0) (conv_ss ss) = last_spos s0 ss.
-Proof. induction ss; intros; cbn [conv_ss last_mspos last_spos]; [apply mspos_conv | apply IHss]. Qed.
+Ltac red1 := cbv beta iota zeta; unfold nat_k; rewrite ?Nat2Z.id.
 
-Lemma mk_block_conv : forall s0 ss,
-  mk_block false (conv_s s0 :: conv_ss ss) = Some (MBlock (block_pos s0 ss) false (conv_s s0 :: conv_ss ss)).
-Proof. intros. cbn [mk_block]. rewrite mspos_conv, last_mspos_conv. reflexivity. Qed.
-Lemma mk_block_as_block : forall o, mk_block false (conv_ss o) = as_block o.
-Proof. destruct o; [reflexivity|]. cbn [conv_ss as_block]. apply mk_block_conv. Qed.
-
-Lemma read_block_ok : forall rs b0 bs K,
-  read_n rs (Datatypes.S (len_ss bs)) (emit_s b0 (emit_ss bs (T END_TAG :: K))) = Some (conv_s b0 :: conv_ss bs, T END_TAG :: K) ->
-  read_block_with rs (blk (Datatypes.S (len_ss bs)) (emit_s b0 (emit_ss bs (T END_TAG :: K))))
-  = Some (MBlock (block_pos b0 bs) false (conv_s b0 :: conv_ss bs), K).
+Lemma read_ckws_ok : forall kw f k, (size_ckws kw <= f)%nat ->
+  read_n (read_ckw_with (read_expr f)) (len_ckws kw) (emit_ckws kw k) = Some (nconv_ckws kw, k).
 Proof.
-  intros rs b0 bs K H. unfold blk, read_block_with. rewrite Nat2Z.id. cbv beta iota. rewrite H. cbv beta iota.
-  rewrite mk_block_conv. reflexivity.
+  induction kw as [|n e r IH]; intros f k Hf; [reflexivity|]. cbn [size_ckws] in *.
+  cbn [len_ckws emit_ckws read_n nconv_ckws]. unfold read_ckw_with at 1, str_k.
+  rewrite read_expr_ok by lia. rewrite IH by lia. reflexivity.
+Qed.
+Lemma read_witems_ok : forall w f k, (size_witems w <= f)%nat ->
+  read_n (read_pair_with (read_expr f) (read_opt (read_expr f))) (len_witems w) (emit_witems w k) = Some (nconv_witems w, k).
+Proof.
+  induction w as [|c t r IH]; intros f k Hf; [reflexivity|]. cbn [size_witems] in *.
+  cbn [len_witems emit_witems read_n nconv_witems]. unfold read_pair_with at 1.
+  rewrite read_expr_ok by lia. rewrite read_oe_ok by lia. rewrite IH by lia. reflexivity.
+Qed.
+Lemma read_htypes_ok : forall hs f k, (size_hs hs <= f)%nat ->
+  read_n (read_opt (read_expr f)) (len_hs hs) (emit_htypes hs k) = Some (nconv_htypes hs, k).
+Proof.
+  induction hs as [|hp ty nm b0 bs r IH]; intros f k Hf; [reflexivity|]. cbn [size_hs] in *.
+  cbn [len_hs emit_htypes read_n nconv_htypes]. rewrite read_oe_ok by lia. rewrite IH by lia. reflexivity.
+Qed.
+Lemma read_hvars_ok : forall hs k, read_n read_ovar (len_hs hs) (emit_hvars hs k) = Some (nconv_hvars hs, k).
+Proof.
+  induction hs as [|hp ty nm b0 bs r IH]; intros k; [reflexivity|].
+  cbn [len_hs emit_hvars read_n nconv_hvars]. destruct nm as [[n np]|]; unfold read_ovar at 1, str_k.
+  - rewrite read_loc_ok. rewrite IH. reflexivity.
+  - rewrite IH. reflexivity.
 Qed.
 
-Lemma read_oblock_ok : forall rs o K,
-  read_n rs (len_ss o) (emit_ss o (T END_TAG :: K)) = Some (conv_ss o, T END_TAG :: K) ->
-  read_optional_block_with rs (blk (len_ss o) (emit_ss o (T END_TAG :: K))) = Some (as_block o, K).
-Proof.
-  intros rs o K H. unfold blk, read_optional_block_with. rewrite Nat2Z.id. rewrite H. cbv beta iota.
-  rewrite mk_block_as_block. reflexivity.
-Qed.
-
-Lemma nth_kind : forall k, nth_error ARG_KINDS (Z.to_nat (argkind_idx k)) = Some k.
-Proof. destruct k; reflexivity. Qed.
-
-Lemma read_param_ok : forall f p n kd d K,
-  match d with Some e => wf_e e /\ (size_e e <= f)%nat | None => True end ->
-  read_param_with (read_expr f)
-    (str_k n (int_k (argkind_idx (param_kind kd d)) (B false ::
-       match d with
-       | Some e => B true :: emit_e e (B (emit_pos_only kd n) :: loc_k p K)
-       | None => B false :: B (emit_pos_only kd n) :: loc_k p K
-       end)))
-  = Some (MArg p p n (param_kind kd d) (match d with Some e => Some (conv_e e) | None => None end) (emit_pos_only kd n), K).
-Proof.
-  intros f p n kd d K H. unfold read_param_with, str_k, int_k. destruct d as [e|].
-  - destruct H as [Hw Hf]. rewrite nth_kind. rewrite read_expr_ok by auto. cbv beta iota. rewrite read_loc_ok. reflexivity.
-  - rewrite nth_kind. cbv beta iota. rewrite read_loc_ok. reflexivity.
-Qed.
-
-Lemma read_params_ok : forall ps, wf_params ps -> forall f k, (size_params ps <= f)%nat ->
-  read_n (read_param_with (read_expr f)) (len_params ps) (emit_params ps k) = Some (conv_params ps, k).
-Proof.
-  induction ps as [|p sp n kd d r IH]; intros Hw f k Hf; [reflexivity|].
-  cbn [wf_params size_params] in *. destruct Hw as [Hsp [Hpo [Hd Hr]]]. subst sp.
-  cbn [len_params emit_params read_n conv_params].
-  rewrite read_param_ok.
-  - rewrite IH by (auto; lia). rewrite Hpo. reflexivity.
-  - destruct d; [split; [auto | lia] | exact Logic.I].
-Qed.
-
-Lemma read_ckws_ok : forall kw, wf_ckws kw -> forall f k, (size_ckws kw <= f)%nat ->
-  read_n (read_ckw_with (read_expr f)) (len_ckws kw) (emit_ckws kw k) = Some (conv_ckws kw, k).
-Proof.
-  induction kw as [|n e r IH]; intros Hw f k Hf; [reflexivity|].
-  cbn [wf_ckws size_ckws] in *. destruct Hw as [He Hr].
-  cbn [len_ckws emit_ckws read_n conv_ckws]. unfold read_ckw_with at 1, str_k.
-  rewrite read_expr_ok by (auto; lia). rewrite IH by (auto; lia). reflexivity.
-Qed.
-
-Definition Ps (s : stmt) := wf_s s -> forall f k, (size_s s <= f)%nat -> read_stmt f (emit_s s k) = Some (conv_s s, k).
-Definition Pss (ss : stmts) := wf_ss ss -> forall f k, (size_ss ss <= f)%nat ->
-  read_n (read_stmt f) (len_ss ss) (emit_ss ss k) = Some (conv_ss ss, k).
-Definition Pel (el : elifs) := True.
+Definition Ps (s : stmt) := forall top f k, (size_s s <= f)%nat -> read_stmt f (emit_s top s k) = Some (nconv_s s, k).
+Definition Pss (ss : stmts) := forall top f k, (size_ss ss <= f)%nat ->
+  read_n (read_stmt f) (len_ss ss) (emit_ss top ss k) = Some (nconv_ss ss, k).
+Definition Pel (el : elifs) := forall top f k, (size_el el <= f)%nat ->
+  read_n (read_pair_with (read_expr f) (read_block_with (read_stmt f))) (len_el el) (emit_elifs top el k) = Some (nconv_elifs el, k).
+Definition Phs (hs : handlers) := forall top f k, (size_hs hs <= f)%nat ->
+  read_n (read_block_with (read_stmt f)) (len_hs hs) (emit_hbodies top hs k) = Some (nconv_hbodies hs, k).
 
 Ltac fuel f := destruct f as [|f]; [cbn [size_s] in *; lia|].
-Ltac red1 := cbv beta iota zeta; rewrite ?Nat2Z.id.
 
-(* reading a required block made of b0 :: bs, from the induction hypotheses of b0 and bs *)
-Lemma block_from_IH : forall f b0 bs K, Ps b0 -> Pss bs -> wf_s b0 -> wf_ss bs -> (size_s b0 + size_ss bs <= f)%nat ->
-  read_block_with (read_stmt f) (blk (Datatypes.S (len_ss bs)) (emit_s b0 (emit_ss bs (T END_TAG :: K))))
-  = Some (MBlock (block_pos b0 bs) false (conv_s b0 :: conv_ss bs), K).
+(* a required block b0 :: bs *)
+Lemma block_ok : forall top f b0 bs K, Ps b0 -> Pss bs -> (size_s b0 + size_ss bs <= f)%nat ->
+  read_block_with (read_stmt f) (blk (Datatypes.S (len_ss bs)) (emit_s top b0 (emit_ss top bs (T END_TAG :: K))))
+  = Some (mk_block_ne false (nconv_s b0) (nconv_ss bs), K).
 Proof.
-  intros f b0 bs K H0 Hs W0 Ws Hf. apply read_block_ok. cbn [read_n].
-  rewrite H0 by (auto; lia). rewrite Hs by (auto; lia). reflexivity.
+  intros top f b0 bs K H0 Hs Hf. unfold blk, read_block_with. rewrite Nat2Z.id. cbv beta iota. cbn [read_n].
+  rewrite H0 by lia. rewrite Hs by lia. reflexivity.
 Qed.
-Lemma oblock_from_IH : forall f o K, Pss o -> wf_ss o -> (size_ss o <= f)%nat ->
-  read_optional_block_with (read_stmt f) (blk (len_ss o) (emit_ss o (T END_TAG :: K))) = Some (as_block o, K).
-Proof. intros f o K Ho Wo Hf. apply read_oblock_ok. apply Ho; auto. Qed.
-
-Lemma read_stmt_ok_all : (forall s, Ps s) /\ (forall ss, Pss ss) /\ (forall el, Pel el).
+(* while/for else: read_optional_block *)
+Lemma oblock_ok : forall top f o K, Pss o -> (size_ss o <= f)%nat ->
+  read_optional_block_with (read_stmt f) (blk (len_ss o) (emit_ss top o (T END_TAG :: K))) = Some (mk_block false (nconv_ss o), K).
+Proof. intros top f o K Ho Hf. unfold blk, read_optional_block_with. rewrite Nat2Z.id. rewrite Ho by lia. reflexivity. Qed.
+(* if/try else, finally: has_x [read_block] *)
+Lemma oblk_ok : forall top f o K, Pss o -> (size_ss o <= f)%nat ->
+  read_opt (read_block_with (read_stmt f)) (emit_oblk top o K) = Some (mk_block false (nconv_ss o), K).
 Proof.
-  apply stmt_all_mut; unfold Pel; try (intros; exact Logic.I).
-  - (* SClass *) intros p name bases kws decos b0 IH0 bs IHs Hw f k Hf. fuel f. cbn [wf_s size_s] in *.
-    destruct Hw as [Wb [Wk [Wd [W0 Ws]]]]. cbn [emit_s read_stmt]. unfold str_k. red1.
-    rewrite (block_from_IH f b0 bs) by (auto; lia). red1.
-    rewrite read_exprs_ok by (auto; lia). red1.
-    rewrite read_exprs_ok by (auto; lia). red1.
-    rewrite read_ckws_ok by (auto; lia). red1. apply loc_finish_ok.
-  - (* SDef *) intros p name ps b0 IH0 bs IHs Hw f k Hf. fuel f. cbn [wf_s size_s] in *.
-    destruct Hw as [Wp [W0 Ws]]. cbn [emit_s read_stmt]. unfold str_k. red1.
-    rewrite read_params_ok by (auto; lia). red1.
-    rewrite (block_from_IH f b0 bs) by (auto; lia). red1. apply loc_finish_ok.
-  - (* SExpr *) intros p e Hw f k Hf. fuel f. cbn [wf_s size_s] in *. destruct Hw as [Hp He].
-    cbn [emit_s read_stmt]. red1. rewrite read_expr_ok by (auto; lia). cbn [finish]. rewrite mepos_conv, <- Hp. reflexivity.
-  - (* SAssign *) intros p t v Hw f k Hf. fuel f. cbn [wf_s size_s] in *. destruct Hw as [Ht Hv].
-    cbn [emit_s read_stmt]. red1. rewrite read_exprs_ok by (auto; lia). red1. rewrite read_expr_ok by (auto; lia).
-    red1. apply loc_finish_ok.
-  - (* SReturn *) intros p v Hw f k Hf. fuel f. cbn [wf_s size_s] in *. destruct v as [e|].
-    + cbn [emit_s read_stmt]. red1. rewrite read_expr_ok by (auto; lia). red1. apply loc_finish_ok.
-    + cbn [emit_s read_stmt]. red1. apply loc_finish_ok.
-  - (* SPass *) intros p _ f k Hf. fuel f. cbn [emit_s read_stmt]. red1. apply loc_finish_ok.
-  - (* SWhile *) intros p t b0 IH0 bs IHs o IHo Hw f k Hf. fuel f. cbn [wf_s size_s] in *.
-    destruct Hw as [Ht [W0 [Ws Wo]]]. cbn [emit_s read_stmt]. red1.
-    rewrite read_expr_ok by (auto; lia). red1.
-    rewrite (block_from_IH f b0 bs) by (auto; lia). red1.
-    rewrite (oblock_from_IH f o) by (auto; lia). red1. apply loc_finish_ok.
-  - (* SFor *) intros p t i b0 IH0 bs IHs o IHo Hw f k Hf. fuel f. cbn [wf_s size_s] in *.
-    destruct Hw as [Ht [Hi [W0 [Ws Wo]]]]. cbn [emit_s read_stmt]. red1.
-    rewrite read_expr_ok by (auto; lia). red1. rewrite read_expr_ok by (auto; lia). red1.
-    rewrite (block_from_IH f b0 bs) by (auto; lia). red1.
-    rewrite (oblock_from_IH f o) by (auto; lia). red1. apply loc_finish_ok.
-  - (* SIf *) intros p t b0 IH0 bs IHs el _ o IHo Hw f k Hf. fuel f. cbn [wf_s size_s] in *.
-    destruct Hw as [Hel [Ht [W0 [Ws Wo]]]]. subst el. cbn [emit_s read_stmt]. red1.
-    rewrite read_expr_ok by (auto; lia). red1.
-    rewrite (block_from_IH f b0 bs) by (auto; lia). red1.
-    cbn [len_el emit_elifs int_k Z.of_nat Z.to_nat read_n]. red1.
-    destruct o as [|s ss].
-    + red1. rewrite loc_finish_ok. reflexivity.
-    + red1. cbn [wf_ss size_ss] in *. destruct Wo as [Wo1 Wo2].
-      rewrite read_block_ok.
-      * red1. rewrite loc_finish_ok. reflexivity.
-      * apply (IHo (conj Wo1 Wo2) f). cbn [size_ss]. lia.
-  - (* SNil *) intros _ f k _. reflexivity.
-  - (* SCons *) intros s IH ss IHs Hw f k Hf. cbn [wf_ss size_ss] in *. destruct Hw as [H1 H2].
-    cbn [len_ss emit_ss read_n conv_ss]. rewrite IH by (auto; lia). rewrite IHs by (auto; lia). reflexivity.
+  intros top f o K Ho Hf. destruct o as [|s ss]; [reflexivity|].
+  cbn [emit_oblk read_opt]. unfold blk, read_block_with. rewrite Nat2Z.id. cbv beta iota.
+  specialize (Ho top f (T END_TAG :: K) Hf). cbn [len_ss emit_ss nconv_ss] in Ho. rewrite Ho. reflexivity.
 Qed.
 
-(* ---------------------------------------------------------------- enough fuel: the stream is at least as long as the tree *)
-Fixpoint ntok_names (a : args) : nat :=
-  match a with ANil => 0 | ACons kd _ a' => (match name_of kd with Some _ => 2 | None => 1 end) + ntok_names a' end%nat.
-
-Fixpoint ntok_e (e : expr) : nat :=
-  match e with
-  | EName _ _ | EInt _ _ | EStr _ _ => 9
-  | EAttr _ e _ => 9 + ntok_e e
-  | ECall _ f a => 13 + ntok_e f + ntok_args a + len_args a + ntok_names a
-  | EBin _ _ l r => 4 + ntok_e l + ntok_e r
-  | EUnary _ _ e => 9 + ntok_e e
-  | ECompare _ l c => 11 + ntok_e l + len_cmps c + ntok_cmps c
-  | EBoolOp _ _ e1 e2 rest => 11 + ntok_e e1 + ntok_e e2 + ntok_es rest
-  | EIfExp _ t b o => 7 + ntok_e b + ntok_e t + ntok_e o
-  | ETuple _ es | EList _ es => 9 + ntok_es es
-  end%nat
-with ntok_es (es : exprs) : nat := match es with ENil => 0 | ECons e es' => ntok_e e + ntok_es es' end%nat
-with ntok_args (a : args) : nat := match a with ANil => 0 | ACons _ e a' => ntok_e e + ntok_args a' end%nat
-with ntok_cmps (c : cmps) : nat := match c with CNil => 0 | CCons _ e c' => ntok_e e + ntok_cmps c' end%nat.
-
-Lemma len_kinds_k : forall a k, List.length (kinds_k a k) = (len_args a + List.length k)%nat.
-Proof. induction a; intros; cbn [kinds_k List.length len_args]; [lia|]. rewrite IHa. lia. Qed.
-Lemma len_names_k : forall a k, List.length (names_k a k) = (ntok_names a + List.length k)%nat.
-Proof. induction a; intros; cbn [names_k ntok_names]; [lia|]. destruct (name_of k); cbn [List.length]; rewrite IHa; lia. Qed.
-Lemma len_cmpidx_k : forall c k, List.length (cmpidx_k c k) = (len_cmps c + List.length k)%nat.
-Proof. induction c; intros; cbn [cmpidx_k List.length len_cmps]; [lia|]. rewrite IHc. lia. Qed.
-
-Ltac len_rw :=
-  repeat (cbn [List.length str_k int_k loc_k blk];
-          first [ rewrite len_kinds_k | rewrite len_names_k | rewrite len_cmpidx_k
-                | match goal with H : forall k : list tok, List.length _ = _ |- _ => rewrite H end ]).
-
-Lemma emit_e_length_all :
-  (forall e k, List.length (emit_e e k) = (ntok_e e + List.length k)%nat) /\ (forall es k, List.length (emit_es es k) = (ntok_es es + List.length k)%nat) /\ (forall a k, List.length (emit_args a k) = (ntok_args a + List.length k)%nat) /\ (forall c k, List.length (emit_cmps c k) = (ntok_cmps c + List.length k)%nat).
+(* the FUNC_DEF_STMT record (shared by plain and decorated defs) *)
+Lemma funcdef_ok : forall f p name ps b0 bs K, Ps b0 -> Pss bs -> (size_params ps + size_s b0 + size_ss bs <= f)%nat ->
+  read_stmt (Datatypes.S f)
+    (T FUNC_DEF_STMT :: str_k name (T LIST_GEN :: I (Z.of_nat (len_params ps)) :: (emit_params ps
+      (blk (Datatypes.S (len_ss bs)) (emit_s false b0 (emit_ss false bs (T END_TAG ::
+         B false :: B false :: B false :: loc_k p (T END_TAG :: K))))))))
+  = Some (MFuncDef p name (force_pos_only (special_function_elide_names name) (nconv_params ps))
+            (mk_block_ne false (nconv_s b0) (nconv_ss bs)), K).
 Proof.
-  apply expr_all_mut; intros;
-    cbn [emit_e emit_es emit_args emit_cmps ntok_e ntok_es ntok_args ntok_cmps];
-    len_rw; unfold str_k, int_k, loc_k, blk; cbn [List.length len_es]; lia.
+  intros f p name ps b0 bs K H0 Hs Hf. cbn [read_stmt]. unfold str_k. red1.
+  rewrite read_params_ok by lia. red1. rewrite (block_ok false f b0 bs) by (auto; lia). red1. apply loc_finish_ok.
 Qed.
 
-Lemma size_le_ntok_all :
-  (forall e, size_e e <= ntok_e e)%nat /\ (forall es, size_es es <= ntok_es es)%nat /\ (forall a, size_args a <= ntok_args a)%nat /\ (forall c, size_cmps c <= ntok_cmps c)%nat.
-Proof. apply expr_all_mut; intros; cbn [size_e size_es size_args size_cmps ntok_e ntok_es ntok_args ntok_cmps]; lia. Qed.
-
-Fixpoint ntok_params (ps : params) : nat :=
-  match ps with
-  | PNil => 0
-  | PCons _ _ _ _ d r => 12 + (match d with Some e => ntok_e e | None => 0 end) + ntok_params r
-  end%nat.
-
-Lemma len_emit_params : forall ps k, List.length (emit_params ps k) = (ntok_params ps + List.length k)%nat.
+Lemma read_stmt_ok_all : (forall s, Ps s) /\ (forall ss, Pss ss) /\ (forall el, Pel el) /\ (forall hs, Phs hs).
 Proof.
-  induction ps as [|p sp n kd d r IH]; intros; cbn [emit_params ntok_params]; [lia|].
-  unfold str_k, int_k, loc_k. destruct d; cbn [List.length]; rewrite ?(proj1 emit_e_length_all); cbn [List.length]; rewrite IH; lia.
-Qed.
-Lemma size_le_ntok_params : forall ps, (size_params ps <= ntok_params ps)%nat.
-Proof.
-  induction ps as [|p sp n kd d r IH]; cbn [size_params ntok_params]; [lia|].
-  destruct d as [e|]; [pose proof (proj1 size_le_ntok_all e)|]; lia.
-Qed.
-
-Fixpoint ntok_ckws (k : ckws) : nat := match k with KNil => 0 | KCons _ e r => 2 + ntok_e e + ntok_ckws r end%nat.
-Lemma len_emit_ckws : forall kw k, List.length (emit_ckws kw k) = (ntok_ckws kw + List.length k)%nat.
-Proof.
-  induction kw as [|n e r IH]; intros; cbn [emit_ckws ntok_ckws]; [lia|].
-  unfold str_k. cbn [List.length]. rewrite (proj1 emit_e_length_all). rewrite IH. lia.
-Qed.
-Lemma size_le_ntok_ckws : forall kw, (size_ckws kw <= ntok_ckws kw)%nat.
-Proof. induction kw as [|n e r IH]; cbn [size_ckws ntok_ckws]; [lia|]. pose proof (proj1 size_le_ntok_all e). lia. Qed.
-
-Fixpoint ntok_s (s : stmt) : nat :=
-  match s with
-  | SClass _ _ bases kws decos b0 bs => 21 + ntok_es bases + ntok_ckws kws + ntok_es decos + ntok_s b0 + ntok_ss bs
-  | SDef _ _ ps b0 bs => 19 + ntok_params ps + ntok_s b0 + ntok_ss bs
-  | SExpr _ e => 2 + ntok_e e
-  | SAssign _ t v => 11 + ntok_es t + ntok_e v
-  | SReturn _ v => 8 + match v with Some e => ntok_e e | None => 0 end
-  | SPass _ => 7
-  | SWhile _ t b0 bs o => 17 + ntok_e t + ntok_s b0 + ntok_ss bs + ntok_ss o
-  | SFor _ t i b0 bs o => 18 + ntok_e t + ntok_e i + ntok_s b0 + ntok_ss bs + ntok_ss o
-  | SIf _ t b0 bs el o =>
-      15 + ntok_e t + ntok_s b0 + ntok_ss bs + ntok_el el + match o with SNil => 0 | SCons _ _ => 5 + ntok_ss o end
-  end%nat
-with ntok_ss (ss : stmts) : nat := match ss with SNil => 0 | SCons s ss' => ntok_s s + ntok_ss ss' end%nat
-with ntok_el (el : elifs) : nat :=
-  match el with LNil => 0 | LCons _ t b0 bs el' => 5 + ntok_e t + ntok_s b0 + ntok_ss bs + ntok_el el' end%nat.
-
-Lemma emit_s_length_all :
-  (forall s k, List.length (emit_s s k) = (ntok_s s + List.length k)%nat) /\ (forall ss k, List.length (emit_ss ss k) = (ntok_ss ss + List.length k)%nat) /\ (forall el k, List.length (emit_elifs el k) = (ntok_el el + List.length k)%nat).
-Proof.
-  destruct emit_e_length_all as [He [Hes _]].
-  apply stmt_all_mut; intros;
-    cbn [emit_s emit_ss emit_elifs ntok_s ntok_ss ntok_el];
-    try match goal with v : option expr |- _ => destruct v end;
-    try match goal with |- context [match ?o with SNil => _ | SCons _ _ => _ end] => destruct o end;
-    cbn [emit_s emit_ss emit_elifs ntok_s ntok_ss ntok_el];
-    repeat match goal with H : forall k : list tok, List.length (emit_ss (SCons _ _) k) = _ |- _ => cbn [emit_ss ntok_ss] in H end;
-    repeat (cbn [List.length str_k int_k loc_k blk];
-            first [ rewrite He | rewrite Hes | rewrite len_emit_params | rewrite len_emit_ckws
-                  | match goal with H : forall k : list tok, List.length _ = _ |- _ => rewrite H end ]);
-    unfold str_k, int_k, loc_k, blk; cbn [List.length]; lia.
-Qed.
-
-Lemma size_le_ntok_s_all :
-  (forall s, size_s s <= ntok_s s)%nat /\ (forall ss, size_ss ss <= ntok_ss ss)%nat /\ (forall el, size_el el <= ntok_el el)%nat.
-Proof.
-  destruct size_le_ntok_all as [He [Hes _]].
-  apply stmt_all_mut; intros; cbn [size_s size_ss size_el ntok_s ntok_ss ntok_el];
-    try match goal with |- context [size_params ?ps] => pose proof (size_le_ntok_params ps) end;
-    try match goal with |- context [size_ckws ?ps] => pose proof (size_le_ntok_ckws ps) end;
-    repeat match goal with
-    | |- context [size_e ?e] => lazymatch goal with _ : (size_e e <= ntok_e e)%nat |- _ => fail | _ => pose proof (He e) end
-    | |- context [size_es ?e] => lazymatch goal with _ : (size_es e <= ntok_es e)%nat |- _ => fail | _ => pose proof (Hes e) end
-    end;
-    try match goal with v : option expr |- _ => destruct v end;
-    try match goal with |- context [match ?o with SNil => _ | SCons _ _ => _ end] => destruct o end;
-    repeat match goal with
-    | |- context [size_e ?e] => lazymatch goal with _ : (size_e e <= ntok_e e)%nat |- _ => fail | _ => pose proof (He e) end
-    end;
-    cbn [size_ss ntok_ss] in *; lia.
-Qed.
-
-(* ---------------------------------------------------------------- the file level *)
-Theorem read_native_emit : forall ss, wf_ss ss -> read_native (emit ss) = Some (convert ss).
-Proof.
-  intros ss Hw. unfold read_native, emit, read_file, int_k, convert. rewrite Nat2Z.id.
-  destruct read_stmt_ok_all as [_ [Hss _]].
-  rewrite (Hss ss Hw).
-  - reflexivity.
-  - cbn [List.length]. rewrite (proj1 (proj2 emit_s_length_all) ss []). pose proof (proj1 (proj2 size_le_ntok_s_all) ss). lia.
+  apply stmt_all_mut.
+  - (* SClass *) intros p name bases kws decos b0 IH0 bs IHs top f k Hf. fuel f. cbn [size_s] in *.
+    cbn [emit_s read_stmt nconv_s]. unfold str_k. red1.
+    rewrite (block_ok top f b0 bs) by (auto; lia). red1.
+    rewrite read_exprs_ok by lia. red1. rewrite read_exprs_ok by lia. red1.
+    rewrite read_ckws_ok by lia. red1. apply loc_finish_ok.
+  - (* SDef *) intros p name ps decos dp b0 IH0 bs IHs top f k Hf. fuel f. cbn [size_s] in *.
+    cbn [emit_s nconv_s]. destruct decos as [|d0 ds].
+    + cbn [nconv_es]. unfold mk_funcdef, nat_k. cbv zeta. apply funcdef_ok; auto; lia.
+    + cbv zeta. cbn [read_stmt]. red1. rewrite read_exprs_ok by lia. unfold int_k. red1.
+      destruct f as [|f]; [cbn [size_es] in *; lia|].
+      rewrite funcdef_ok by (auto; cbn [size_es] in *; lia). red1. cbn [finish nconv_es]. unfold mk_funcdef, span.
+      cbn [p_line p_col p_eline p_ecol]. reflexivity.
+  - (* SExpr *) intros p e top f k Hf. fuel f. cbn [size_s] in *. cbn [emit_s read_stmt nconv_s]. red1.
+    rewrite read_expr_ok by lia. reflexivity.
+  - (* SAssign *) intros p t v top f k Hf. fuel f. cbn [size_s] in *. cbn [emit_s read_stmt nconv_s]. red1.
+    rewrite read_exprs_ok by lia. red1. rewrite read_expr_ok by lia. red1. rewrite loc_finish_ok, fix_temp_nconv. reflexivity.
+  - (* SAnnAssign *) intros p t a v top f k Hf. fuel f. cbn [size_s] in *. cbn [emit_s read_stmt nconv_s].
+    change (Z.to_nat 1) with 1%nat. cbn [read_n]. red1. rewrite read_expr_ok by lia. red1. destruct v as [|e].
+    + destruct f as [|f]; [lia|]. cbn [read_expr finish]. red1. rewrite read_ty_ok by lia. red1. rewrite loc_finish_ok. reflexivity.
+    + cbn [size_oe] in *. rewrite read_expr_ok by lia. red1. rewrite read_ty_ok by lia. red1.
+      rewrite loc_finish_ok, fix_temp_nconv. reflexivity.
+  - (* SAugAssign *) intros p op t v top f k Hf. fuel f. cbn [size_s] in *. cbn [emit_s read_stmt nconv_s]. unfold str_k. red1.
+    rewrite read_expr_ok by lia. red1. rewrite read_expr_ok by lia. red1. apply loc_finish_ok.
+  - (* SReturn *) intros p v top f k Hf. fuel f. cbn [size_s] in *. cbn [emit_s read_stmt nconv_s]. red1.
+    rewrite read_oe_ok by lia. red1. apply loc_finish_ok.
+  - (* SPass *) intros p top f k Hf. fuel f. cbn [emit_s read_stmt nconv_s]. red1. apply loc_finish_ok.
+  - (* SBreak *) intros p top f k Hf. fuel f. cbn [emit_s read_stmt nconv_s]. red1. apply loc_finish_ok.
+  - (* SContinue *) intros p top f k Hf. fuel f. cbn [emit_s read_stmt nconv_s]. red1. apply loc_finish_ok.
+  - (* SGlobal *) intros p ns top f k Hf. fuel f. cbn [emit_s read_stmt nconv_s]. unfold int_k. red1.
+    rewrite read_strs_ok. red1. apply loc_finish_ok.
+  - (* SNonlocal *) intros p ns top f k Hf. fuel f. cbn [emit_s read_stmt nconv_s]. unfold int_k. red1.
+    rewrite read_strs_ok. red1. apply loc_finish_ok.
+  - (* SDel *) intros p t0 ts top f k Hf. fuel f. cbn [size_s] in *. destruct ts as [|t1 ts].
+    + cbn [emit_s read_stmt nconv_s]. red1. rewrite read_expr_ok by lia. red1. apply loc_finish_ok.
+    + cbn [emit_s read_stmt nconv_s]. red1. fuel f. cbn [read_expr]. red1. cbn [read_n]. rewrite read_expr_ok by lia.
+      rewrite read_exprs_ok by lia. red1. rewrite loc_finish_ok. red1. apply loc_finish_ok.
+  - (* SAssert *) intros p t m top f k Hf. fuel f. cbn [size_s] in *. cbn [emit_s read_stmt nconv_s]. red1.
+    rewrite read_expr_ok by lia. red1. rewrite read_oe_ok by lia. red1. apply loc_finish_ok.
+  - (* SRaise *) intros p e c top f k Hf. fuel f. cbn [size_s] in *. cbn [emit_s read_stmt nconv_s]. red1.
+    rewrite read_oe_ok by lia. red1. rewrite read_oe_ok by lia. red1. apply loc_finish_ok.
+  - (* SImport *) intros p ns top f k Hf. fuel f. cbn [emit_s read_stmt nconv_s]. unfold int_k at 1. red1.
+    rewrite read_aliases_ok. red1. unfold import_finish, flags_k, int_k. rewrite read_loc_ok. reflexivity.
+  - (* SImportFrom *) intros p lv m ns top f k Hf. fuel f. cbn [emit_s read_stmt nconv_s]. unfold int_k at 1 2, str_k. red1.
+    rewrite read_aliases_ok. red1. unfold import_finish, flags_k, int_k. rewrite read_loc_ok. reflexivity.
+  - (* SImportAll *) intros p lv m top f k Hf. fuel f. cbn [emit_s read_stmt nconv_s]. unfold str_k, int_k at 1. red1.
+    unfold import_finish, flags_k, int_k. rewrite read_loc_ok. reflexivity.
+  - (* SWhile *) intros p t b0 IH0 bs IHs o IHo top f k Hf. fuel f. cbn [size_s] in *. cbn [emit_s read_stmt nconv_s]. red1.
+    rewrite read_expr_ok by lia. red1. rewrite (block_ok top f b0 bs) by (auto; lia). red1.
+    rewrite (oblock_ok top f o) by (auto; lia). red1. apply loc_finish_ok.
+  - (* SFor *) intros p t i b0 IH0 bs IHs o IHo top f k Hf. fuel f. cbn [size_s] in *. cbn [emit_s read_stmt nconv_s]. red1.
+    rewrite read_expr_ok by lia. red1. rewrite read_expr_ok by lia. red1.
+    rewrite (block_ok top f b0 bs) by (auto; lia). red1. rewrite (oblock_ok top f o) by (auto; lia). red1. apply loc_finish_ok.
+  - (* SIf *) intros p t b0 IH0 bs IHs el IHel o IHo top f k Hf. fuel f. cbn [size_s] in *. cbn [emit_s read_stmt nconv_s]. red1.
+    rewrite read_expr_ok by lia. red1. rewrite (block_ok top f b0 bs) by (auto; lia). unfold int_k. red1.
+    rewrite IHel by lia. red1. rewrite (oblk_ok top f o) by (auto; lia). red1. apply loc_finish_ok.
+  - (* SWith *) intros p items b0 IH0 bs IHs top f k Hf. fuel f. cbn [size_s] in *. cbn [emit_s read_stmt nconv_s]. unfold int_k. red1.
+    rewrite read_witems_ok by lia. red1. rewrite (block_ok top f b0 bs) by (auto; lia). red1. apply loc_finish_ok.
+  - (* STry *) intros p b0 IH0 bs IHs hs IHh o IHo fin IHf top f k Hf. fuel f. cbn [size_s] in *. cbn [emit_s read_stmt nconv_s]. red1.
+    rewrite (block_ok top f b0 bs) by (auto; lia). unfold int_k. red1.
+    rewrite read_htypes_ok by lia. red1. rewrite read_hvars_ok. red1. rewrite IHh by lia. red1.
+    rewrite (oblk_ok top f o) by (auto; lia). red1. rewrite (oblk_ok top f fin) by (auto; lia). red1. apply loc_finish_ok.
+  - (* SNil *) intros top f k _. reflexivity.
+  - (* SCons *) intros s IH ss IHs top f k Hf. cbn [size_ss] in *.
+    cbn [len_ss emit_ss read_n nconv_ss]. rewrite IH by lia. rewrite IHs by lia. reflexivity.
+  - (* LNil *) intros top f k _. reflexivity.
+  - (* LCons *) intros p t b0 IH0 bs IHs el IHel top f k Hf. cbn [size_el] in *.
+    cbn [len_el emit_elifs read_n nconv_elifs]. unfold read_pair_with at 1.
+    rewrite read_expr_ok by lia. rewrite (block_ok top f b0 bs) by (auto; lia). rewrite IHel by lia. reflexivity.
+  - (* HNil *) intros top f k _. reflexivity.
+  - (* HCons *) intros hp ty nm b0 IH0 bs IHs r IHr top f k Hf. cbn [size_hs] in *.
+    cbn [len_hs emit_hbodies read_n nconv_hbodies].
+    rewrite (block_ok top f b0 bs) by (auto; lia). rewrite IHr by lia. reflexivity.
 Qed.
